@@ -94,7 +94,9 @@ func (rm *RpcMultiplexer) CallUnaryMethod(
 	respChan := make(chan *goatorepo.Rpc, 1)
 	done := make(chan struct{})
 
-	rm.registerHandler(streamId, &respHandler{ch: respChan, done: done})
+	if err := rm.registerHandler(streamId, &respHandler{ch: respChan, done: done}); err != nil {
+		return nil, err
+	}
 	defer rm.unregisterHandler(streamId)
 
 	rpc := goatorepo.Rpc{
@@ -161,7 +163,9 @@ func (rm *RpcMultiplexer) NewStreamReadWriter(
 
 	respChan := make(chan *goatorepo.Rpc, 1)
 	done := make(chan struct{})
-	rm.registerHandler(streamId, &respHandler{ch: respChan, done: done})
+	if err := rm.registerHandler(streamId, &respHandler{ch: respChan, done: done}); err != nil {
+		return 0, nil, nil, err
+	}
 
 	teardown := func() {
 		rm.unregisterHandler(streamId)
@@ -237,11 +241,20 @@ func (rm *RpcMultiplexer) handleResponse(rpc *goatorepo.Rpc) {
 	}
 }
 
-func (rm *RpcMultiplexer) registerHandler(id uint64, h *respHandler) {
+func (rm *RpcMultiplexer) registerHandler(id uint64, h *respHandler) error {
 	rm.mutex.Lock()
 	defer rm.mutex.Unlock()
 
+	// Once the read loop has failed nobody will ever deliver a response (or
+	// close the handler), so a call must not be registered any more. The check
+	// has to happen under the same lock as the registration: the failure may
+	// have happened since the caller last looked.
+	if rm.rErr != nil {
+		return rm.rErr
+	}
+
 	rm.handlers[id] = h
+	return nil
 }
 
 func (rm *RpcMultiplexer) unregisterHandler(id uint64) {
